@@ -23,6 +23,9 @@ def audit(diff, budget, run_tests, tier, props_override=None):
     head = open(diff).read()
     m = re.search(r"^property:\s*(\S+)", head, re.M)
     props = props_override or (m.group(1).split(",") if m else [])
+    meta = os.path.join(os.path.dirname(diff), "meta.json")
+    if not props and os.path.exists(meta):
+        props = [json.load(open(meta))["property"]]
     name = os.path.splitext(os.path.basename(diff))[0]
     if name == "patch":
         name = os.path.basename(os.path.dirname(diff))
@@ -48,6 +51,8 @@ def audit(diff, budget, run_tests, tier, props_override=None):
             t0 = time.time()
             env = dict(os.environ, VERIF_REPO=wt, VERIF_EVIDENCE_DIR=os.path.join(td, "ev"),
                        VERIF_REPLAY_DIR=os.path.join(td, "rp"))
+            env.setdefault("VERIF_MIN_BUDGET", "20")
+            env.setdefault("VERIF_MAX_REPORT", "1")
             c = subprocess.run([os.path.join(HERE, "check"), prop, "--tier", tier,
                                 "--budget-s", str(budget), "--no-selfcheck"],
                                capture_output=True, text=True, env=env, cwd=HERE)
